@@ -4,6 +4,7 @@ import (
 	"bytes"
 	"fmt"
 	"os"
+	"runtime/debug"
 	"strings"
 
 	"go.sia.tech/core/consensus"
@@ -62,7 +63,7 @@ func History(r *vh.Run, name string, t *chainx.Tree, ids *IDs, decls map[int]*De
 		res := rig.Submit(batch)
 		if res == "panic" {
 			if len(c.Fails) == 0 {
-				c.Oracle("addblocks-panic", "AddBlocks panicked on batch %v", batch)
+				c.Oracle("addblocks-panic", "AddBlocks panicked on batch %v: %s", batch, rig.PanicMsg)
 			}
 			break
 		}
@@ -362,7 +363,7 @@ func DirectedCheckpoint(r *vh.Run, rng *vh.RNG, name string) {
 	compare("after NewDBStoreAtCheckpoint")
 	for i, batch := range sched {
 		if res := rig.Submit(batch); res == "panic" {
-			c.Oracle("addblocks-panic", "AddBlocks panicked on batch %v", batch)
+			c.Oracle("addblocks-panic", "AddBlocks panicked on batch %v: %s", batch, rig.PanicMsg)
 			break
 		}
 		compare(fmt.Sprintf("after batch %d %v", i, batch))
@@ -470,6 +471,9 @@ func Safely(r *vh.Run, name string, f func()) {
 
 func Run(r *vh.Run) {
 	r.Rule = "a case = one fork tree of real blocks (random v2 allow/require heights; v1/v2 payments, ephemeral outputs, siafund spends, v1 contract formation / revision with and without window change / storage proof / expiry with several contracts per WindowEnd, v2 formation / revision / renewal / proof / expiration; 0-2 corrupted siblings) submitted to a fresh real Manager in one generated schedule, every store ApplyBlock/RevertBlock observed; non-trivial = the manager reverted at least one block; distinct = distinct op lists. Plus directed histories for the known classes and the Tree-bucket index arithmetic"
+	// a write into bbolt's read-only mmap (or any other memory fault of the real code) becomes a
+	// panic that the per-call recovers below turn into an oracle failure naming the history
+	defer debug.SetPanicOnFault(debug.SetPanicOnFault(true))
 	chainx.EnableRiskyKinds()
 	rng := vh.NewRNG(r.Seed).Fork() // NewRNG(s) and NewRNG(s+1) are one step apart; Fork decorrelates the seeds
 	trees := r.Pick(60, 1500)
